@@ -57,6 +57,7 @@ structure Svc where
   secrets : List String            -- `secrets[].source`
   build : Option (List String)     -- `build.secrets[].source`; `none` = no build section
   configs : List String            -- `configs[].source`
+  env : AL (Option String) := []   -- `environment`; `none` = `KEY` listed without a value
 deriving DecidableEq, Repr, Inhabited
 
 structure Proj where
@@ -67,6 +68,7 @@ structure Proj where
   volumes : AL String
   secrets : AL String
   configs : AL String
+  environment : AL String := []    -- `Project.Environment` (what unset service variables are resolved against)
 deriving DecidableEq, Repr, Inhabited
 
 /-! ## profiles -/
@@ -92,9 +94,22 @@ def enableProfiles (p : Proj) (names : List String) : List String :=
     if has n p.services then acc
     else acc ++ (match lookup n p.disabled with | some s => s.profiles | none => [])) p.profiles
 
-/-- `Project.WithServicesEnabled` (the final `WithServicesEnvironmentResolved` does not touch the modelled fields) -/
+/-- `MappingWithEquals.Resolve(project.Environment.Resolve)` followed by `OverrideBy` onto an empty mapping:
+a variable listed without a value takes the project's value if there is one -/
+def resolveEnv (penv : AL String) (env : AL (Option String)) : AL (Option String) :=
+  env.map fun kv => (kv.1, match kv.2 with | some v => some v | none => lookup kv.1 penv)
+
+def resolveEnvSvc (penv : AL String) (s : Svc) : Svc := { s with env := resolveEnv penv s.env }
+
+/-- `Project.WithServicesEnvironmentResolved(true)` on services without `env_file` (files are C16's subject):
+only the *enabled* services are resolved -/
+def resolveEnabled (p : Proj) : Proj :=
+  { p with services := p.services.map fun kv => (kv.1, resolveEnvSvc p.environment kv.2) }
+
+/-- `Project.WithServicesEnabled`: repartition by the extended profile list, then resolve the environment of the
+enabled services.  With no name the receiver's copy is returned before either step. -/
 def withServicesEnabled (p : Proj) (names : List String) : Proj :=
-  if names.isEmpty then p else withProfiles p (enableProfiles p names)
+  if names.isEmpty then p else resolveEnabled (withProfiles p (enableProfiles p names))
 
 /-! ## disabling -/
 
